@@ -161,6 +161,18 @@ def run(chk, replay=None):
                     events += h
                     n_hist += 1
                     ev.case((kind, str(init), str(seq)))
+    # every way an enumeration comes into being x every value kind x every initial mapping (also one that gives every
+    # value of the kind, the first of "falsy" being None): it holds exactly what it was given
+    inits_all = inits + [[("a", 1), ("_b", 2), ("c", 3), ("READ_10", 4)], [("READ_10", 1)]]
+    for kind in sorted(kinds):
+        for init in inits_all:
+            for form in ("dict", "kwargs", "opcode"):
+                s = [("keys", "", 0, "E1")] + [("get", n, 0, "E1") for n, _ in init]
+                h = history(kind, init, s, form)
+                index += [(kind, str(init), "construct:" + form)] * len(h)
+                events += h
+                n_hist += 1
+                ev.case((kind, str(init), "construct", form))
     # long random histories on three enumerations with more names
     alpha3 = alphabet(NAMES, 4)
     for kind in sorted(kinds):
